@@ -59,7 +59,8 @@ impl<R: Read + Seek> Mp4Reader<R> {
                     moov = Some(MoovBox::read_box(&mut reader, s)?);
                 }
                 BoxType::MoofBox => {
-                    let moof_offset = reader.stream_position()? - 8;
+                    // the box starts where its header was read from (the header may be 16 bytes)
+                    let moof_offset = current;
                     let moof = MoofBox::read_box(&mut reader, s)?;
                     moofs.push(moof);
                     moof_offsets.push(moof_offset);
@@ -162,7 +163,8 @@ impl<R: Read + Seek> Mp4Reader<R> {
                     skip_box(&mut reader, s)?;
                 }
                 BoxType::MoofBox => {
-                    let moof_offset = reader.stream_position()? - 8;
+                    // the box starts where its header was read from (the header may be 16 bytes)
+                    let moof_offset = current;
                     let moof = MoofBox::read_box(&mut reader, s)?;
                     moofs.push(moof);
                     moof_offsets.push(moof_offset);
